@@ -70,12 +70,15 @@ func (idx *index) insert(ctx context.Context, p pointer, persist bool) error {
 	idx.totalSize.Add(int64(p.size))
 	idx.persistHead = min(idx.persistHead, insertAt)
 
-	idx.mu.Unlock()
 	if !persist {
+		idx.mu.Unlock()
 		return nil
 	}
 
+	// prepare reads the pointer slice, so it has to run under the lock (as in update);
+	// only the file write happens after releasing it.
 	persistPointers := idx.indexPersist.prepare(idx.persistHead)
+	idx.mu.Unlock()
 	return persistPointers()
 }
 
